@@ -42,7 +42,7 @@ def _plans(tier):
                 ("stub", lc.plan(1, [], [], "none", [105]), 2, 1)]
     return [("close", lc.plan(2, [1], FUK, "none", [98, 99], empty=False), 3, 1),
             ("close-deep", lc.plan(1, [1], FUK, "dep", [98]), 3, 2),
-            ("uni", lc.plan(1, [1], ["F", "U", "V", "S", "H", "L"], "dep", [98]), 4, 1),
+            ("uni", lc.plan(1, [1], ["F", "U", "V", "S", "H", "L"], "dep", [98, 100]), 4, 1),
             ("uni-streamed", lc.plan(1, [1], UNI, "dep", [98, 99], mode="streamed", empty=False), 4, 1),
             ("two", lc.plan(2, [1, 2], ["F", "M"], "none", [98, 99], empty=False), 4, 1),
             ("stub", lc.plan(2, [], [], "none", [105]), 2, 1),
